@@ -41,7 +41,7 @@ def replay_kani(ob, r, ctx):
         info = engines.prepare_unit(ob.unit, ob.extract_fn)
         crate = info['crate']
         tdir = os.path.join(vlib.scratch(), 'kt', '%s-%s%s' % (ob.unit, ob.harness, '-f' if getattr(ob, 'rustflags', None) else ''))
-        cmd = 'cd %s && cargo kani --harness %s --target-dir %s -Z concrete-playback --concrete-playback=inplace' % (crate, ob.harness, tdir) + engines.CBMC_ARGS
+        cmd = 'cd %s && cargo kani --harness %s --target-dir %s -Z concrete-playback --concrete-playback=inplace' % (crate, ob.harness, tdir) + ('' if getattr(ob, 'field_sensitivity', False) else engines.CBMC_ARGS)
         stub = ''
     else:
         crate = vlib.repo_copy()
